@@ -80,6 +80,7 @@ def preemptions(dec, upto, alt):
 def enumerate_schedules(exe, sc, name, body, method, faults, budget, tag):
     """iterative context bounding over the schedules of one scenario.
     Returns (scripts run, trace files, #distinct schedules)."""
+    mname = method.split()[0]        # `method` may carry further header options
     frontier = [(0, "")]
     seen = {""}
     scripts, tfs = [], []
@@ -89,9 +90,9 @@ def enumerate_schedules(exe, sc, name, body, method, faults, budget, tag):
         batch, frontier = frontier[:min(256, budget - len(scripts))], frontier[min(256, budget - len(scripts)):]
         bs = []
         for i, (_pc, pre) in enumerate(batch):
-            sid = "%s.%s.%s.%d" % (tag, name, method, len(scripts) + i)
+            sid = "%s.%s.%s.%d" % (tag, name, mname, len(scripts) + i)
             bs.append(mk(sid, body, method, pre, det=1, faults=faults))
-        t = corerun.run_scripts(exe, bs, sc, tag="%s-%s-%s-%d" % (tag, name, method, rounds))
+        t = corerun.run_scripts(exe, bs, sc, tag="%s-%s-%s-%d" % (tag, name, mname, rounds))
         rounds += 1
         scripts += bs
         tfs += t
@@ -105,7 +106,7 @@ def enumerate_schedules(exe, sc, name, body, method, faults, budget, tag):
                 elif '"e":"Dec"' in ln:
                     decs[sid] = json.loads(ln)["d"]
         for i, (_pc, pre) in enumerate(batch):
-            sid = "%s.%s.%s.%d" % (tag, name, method, len(scripts) - len(bs) + i)
+            sid = "%s.%s.%s.%d" % (tag, name, mname, len(scripts) - len(bs) + i)
             d = decs.get(sid, [])
             for j in range(len(pre), len(d)):
                 chosen, mask = d[j]
